@@ -13,8 +13,11 @@
 //
 //	const name [T] = <int literal | expression over literals and earlier constants>   (chunkSize, init0..init3, …)
 //	func New: md4.state[k] = <const name>   for k = 0..3        (nothing else may touch the state)
-//	func f(p1, …, pn uint32) uint32 { return <expr> }           expr over + - ^ & | << >>, ( ), params,
-//	                                                            int literals, calls of such helpers
+//	func f(p1, …, pn uint32) uint32 { return <expr> }           expr over + - ^ & | &^ << >>, unary ^, ( ), params,
+//	                                                            int literals, constants of the file, calls of such
+//	                                                            helpers; its bitwise parts are named by their truth
+//	                                                            table and one-line bitwise helpers inlined
+//	                                                            (md4_bitfn.go, N9–N11)
 //	func (md4 *MD4) processChunk(chunk []byte):                 whatever md4_peval.go can reduce to
 //	    v = helper(<register | md4.state[k] on entry | message word | constant>…)   any number of these steps,
 //	    md4.state[k] = md4.state[j] on entry + v  (or v)        as final values of the four state words
@@ -44,6 +47,13 @@ type md4x struct {
 	consts  map[string]uint64
 	helpers map[string]*ast.FuncDecl // pure uint32 helpers by name
 	order   []string
+
+	// translation of one helper body (md4_bitfn.go)
+	bctx         *bitCtx           // the helper being emitted: its parameters as truth-table vectors
+	deps         []string          // helpers the emitted text calls (emitted first)
+	inlined      map[string]bool   // helpers substituted into a caller's boolean part (N10): used, no definition
+	bitfns       map[string]string // name of a truth table -> its Lean definition
+	bitfnPending []string          // tables named since the last helper was written
 }
 
 func (m *md4x) errf(n ast.Node, format string, a ...any) error {
@@ -133,6 +143,22 @@ func (m *md4x) constExpr(e ast.Expr) (uint64, error) {
 
 // expr translates a pure uint32 expression; `params` are the identifiers in scope.
 func (m *md4x) expr(e ast.Expr, params map[string]bool) (string, error) {
+	// N9/N10 (md4_bitfn.go): the maximal sub-expressions that are bitwise functions of the parameters are replaced by
+	// the name of their truth table; a parameter, literal or constant on its own is written as it is.
+	switch u := unparen(e).(type) {
+	case *ast.Ident, *ast.BasicLit:
+	default:
+		_ = u
+		if m.bctx != nil {
+			used := map[string]bool{}
+			if vec, ok := m.pureBits(e, m.bctx, m.bctx.env, 0, used); ok {
+				for h := range used {
+					m.inlined[h] = true
+				}
+				return m.canonBits(vec, m.bctx, e)
+			}
+		}
+	}
 	switch v := e.(type) {
 	case *ast.ParenExpr:
 		return m.expr(v.X, params) // every binary expression is emitted fully parenthesised
@@ -140,7 +166,25 @@ func (m *md4x) expr(e ast.Expr, params map[string]bool) (string, error) {
 		if params[v.Name] {
 			return v.Name, nil
 		}
-		return "", m.errf(e, "identifier %q is not a parameter of the helper", v.Name)
+		if n, ok := m.consts[v.Name]; ok { // N11: a named constant of the file stands for its value
+			if n > 0xFFFFFFFF {
+				return "", m.errf(e, "constant %s is not a uint32 constant", v.Name)
+			}
+			return fmt.Sprintf("0x%x", n), nil
+		}
+		return "", m.errf(e, "identifier %q is neither a parameter of the helper nor a constant of the file", v.Name)
+	case *ast.UnaryExpr:
+		if v.Op != token.XOR {
+			return "", m.errf(e, "unary operator %s is not in the translated fragment", v.Op)
+		}
+		if m.isPure(v.X) {
+			return "", m.errf(e, "complement of a bitwise function that has no truth table over at most six parameters")
+		}
+		x, err := m.expr(v.X, params)
+		if err != nil {
+			return "", err
+		}
+		return "(~~~ " + x + ")", nil
 	case *ast.BasicLit:
 		n, ok := intLit(v)
 		if !ok || n > 0xFFFFFFFF {
@@ -150,6 +194,21 @@ func (m *md4x) expr(e ast.Expr, params map[string]bool) (string, error) {
 	case *ast.BinaryExpr:
 		ops := map[token.Token]string{token.ADD: "+", token.SUB: "-", token.XOR: "^^^", token.AND: "&&&",
 			token.OR: "|||", token.SHL: "<<<", token.SHR: ">>>"}
+		if isBitwiseOp(v.Op) && m.bctx != nil && m.isPure(v.X) != m.isPure(v.Y) {
+			// N9 "mixed": one operand is a function of one bit position of the parameters, the other is not
+			return "", m.errf(e, "bitwise operator %s joins a bitwise function of the parameters and an expression that is none (shift, sum, other literal, call): no truth table, refused", v.Op)
+		}
+		if v.Op == token.AND_NOT { // x &^ y  =  x & ^y
+			l, err := m.expr(v.X, params)
+			if err != nil {
+				return "", err
+			}
+			r, err := m.expr(v.Y, params)
+			if err != nil {
+				return "", err
+			}
+			return "(" + l + " &&& (~~~ " + r + "))", nil
+		}
 		op, ok := ops[v.Op]
 		if !ok {
 			return "", m.errf(e, "operator %s is not in the translated fragment", v.Op)
@@ -168,6 +227,7 @@ func (m *md4x) expr(e ast.Expr, params map[string]bool) (string, error) {
 		if !ok || m.helpers[id.Name] == nil {
 			return "", m.errf(e, "call of something that is not a translated uint32 helper")
 		}
+		m.deps = append(m.deps, id.Name)
 		parts := []string{id.Name}
 		for _, a := range v.Args {
 			s, err := m.expr(a, params)
@@ -179,6 +239,15 @@ func (m *md4x) expr(e ast.Expr, params map[string]bool) (string, error) {
 		return "(" + strings.Join(parts, " ") + ")", nil
 	}
 	return "", m.errf(e, "expression shape %T is not in the translated fragment", e)
+}
+
+// isPure: e is a bitwise function of the parameters of the helper being emitted (N9), a lone parameter included.
+func (m *md4x) isPure(e ast.Expr) bool {
+	if m.bctx == nil {
+		return false
+	}
+	_, ok := m.pureBits(e, m.bctx, m.bctx.env, 0, nil)
+	return ok
 }
 
 // helperParams returns the parameter names of `func f(p… uint32) uint32` or an error.
@@ -238,6 +307,8 @@ func (m *md4x) shiftCheck(name string, bind map[string]uint64, at ast.Node) erro
 		switch v := e.(type) {
 		case *ast.ParenExpr:
 			walk(v.X)
+		case *ast.UnaryExpr:
+			walk(v.X)
 		case *ast.BinaryExpr:
 			if v.Op == token.SHL || v.Op == token.SHR {
 				n, ok := evalAmount(v.Y)
@@ -293,7 +364,8 @@ func stateIndex(e ast.Expr, recv string) (int, bool) {
 
 func md4Kernel(repo string) (string, any, error) {
 	path := filepath.Join(repo, "crypto/md4/md4.go")
-	m := &md4x{fset: token.NewFileSet(), consts: map[string]uint64{}, helpers: map[string]*ast.FuncDecl{}}
+	m := &md4x{fset: token.NewFileSet(), consts: map[string]uint64{}, helpers: map[string]*ast.FuncDecl{},
+		inlined: map[string]bool{}, bitfns: map[string]string{}}
 	file, err := parseGoFile(m.fset, path)
 	if err != nil {
 		return "", nil, err
@@ -418,7 +490,7 @@ func md4Kernel(repo string) (string, any, error) {
 		initOf[0], initOf[1], initOf[2], initOf[3]))
 
 	// ---- helpers (callees first)
-	emitted := map[string]bool{}
+	emitted, emitting := map[string]bool{}, map[string]bool{}
 	var emit func(name string, at ast.Node) error
 	emit = func(name string, at ast.Node) error {
 		if emitted[name] {
@@ -436,28 +508,36 @@ func md4Kernel(repo string) (string, any, error) {
 		if !ok || len(rs.Results) != 1 {
 			return m.errf(fd, "helper %s: body is not a single return statement", name)
 		}
-		// callees first
-		var ferr error
-		ast.Inspect(rs.Results[0], func(n ast.Node) bool {
-			if c, ok := n.(*ast.CallExpr); ok {
-				if id, ok := c.Fun.(*ast.Ident); ok && m.helpers[id.Name] != nil && id.Name != name {
-					if e := emit(id.Name, c); e != nil && ferr == nil {
-						ferr = e
-					}
-				}
-			}
-			return true
-		})
-		if ferr != nil {
-			return ferr
+		if emitting[name] {
+			return m.errf(fd, "helper %s: recursive", name)
 		}
+		if strings.HasPrefix(name, "bitfn") {
+			return m.errf(fd, "helper %s: the name is reserved for the truth tables of the generated module", name)
+		}
+		emitting[name] = true
+		defer delete(emitting, name)
 		params := map[string]bool{}
 		for _, p := range ps {
+			if params[p] {
+				return m.errf(fd, "helper %s: parameter %s twice", name, p)
+			}
 			params[p] = true
 		}
+		// translate the body; the helpers its text calls are written first, then the truth tables it names, then itself
+		m.bctx, m.deps, m.bitfnPending = m.newBitCtx(ps), nil, nil
 		body, err := m.expr(rs.Results[0], params)
+		deps, tables := m.deps, m.bitfnPending
+		m.bctx, m.deps, m.bitfnPending = nil, nil, nil
 		if err != nil {
 			return err
+		}
+		for _, d := range deps {
+			if err := emit(d, fd); err != nil {
+				return err
+			}
+		}
+		for _, t := range tables {
+			b.WriteString(m.bitfns[t])
 		}
 		b.WriteString(fmt.Sprintf("def %s (%s : UInt32) : UInt32 := %s\n", name, strings.Join(ps, " "), body))
 		emitted[name] = true
@@ -499,7 +579,7 @@ func md4Kernel(repo string) (string, any, error) {
 	finals := kr.finals
 	// helpers never called from processChunk are still emitted if they are well-formed (none expected)
 	for _, h := range m.order {
-		if !emitted[h] {
+		if !emitted[h] && !m.inlined[h] {
 			return "", nil, m.errf(m.helpers[h], "uint32 helper %s is not used by processChunk: code shape changed", h)
 		}
 	}
